@@ -115,15 +115,12 @@ theorem relay_header (target : String) (r : Req) (hn : AList.NoDupKeys r.headers
 
 /-! ## Request side -/
 
-/-- **X-Forwarded-For, every line kept** — for every request the upstream gets one
-X-Forwarded-For line: all the client's X-Forwarded-For lines in order, then the remote address,
-separated by ", ". -/
-theorem xff_all_lines (target : String) (r : Req) (hn : AList.NoDupKeys r.headers) :
-    AList.get (relay target r).headers xffName =
-      some [joinSep ", " (xffLines r.headers ++ [r.remoteAddr])] := by
-  rw [relay_header target r hn xffName, if_pos rfl]
-  simp only [xffValue, headerValues, xffLines]
-  cases hg : AList.get r.headers xffName with
+theorem xff_calc (o : Option (List String)) (ra : String) :
+    (if joinSep ", " (o.getD []) != "" then joinSep ", " (o.getD []) ++ ", " ++ ra else ra) =
+      joinSep ", " ((match o with
+        | none => []
+        | some vs => if vs = [""] then [] else vs) ++ [ra]) := by
+  cases o with
   | none => simp [joinSep]
   | some vs =>
     simp only [Option.getD_some]
@@ -135,6 +132,15 @@ theorem xff_all_lines (target : String) (r : Req) (hn : AList.NoDupKeys r.header
           ((joinSep_comma_space_eq_empty vs).mp e).elim h0 h1
         simp only [h1, if_false, bne_iff_ne, ne_eq, hne, not_false_eq_true, if_true]
         rw [joinSep_snoc _ _ _ h0]
+
+/-- **X-Forwarded-For, every line kept** — for every request the upstream gets one
+X-Forwarded-For line: all the client's X-Forwarded-For lines in order, then the remote address,
+separated by ", ". -/
+theorem xff_all_lines (target : String) (r : Req) (hn : AList.NoDupKeys r.headers) :
+    AList.get (relay target r).headers xffName =
+      some [joinSep ", " (xffLines r.headers ++ [r.remoteAddr])] := by
+  rw [relay_header target r hn xffName, if_pos rfl]
+  exact congrArg (fun x => some [x]) (xff_calc (AList.get r.headers xffName) r.remoteAddr)
 
 /-- **request_preserved** — for every request, the request handed to the upstream has the same
 method, the URL `configured address ++ path ++ ?query`, the same body; for every header name other
